@@ -32,8 +32,8 @@ FAMILIES = {
         rule='event trees of depth <= 4 with awaited and fire-and-forget children on any bus, raising handlers, small histories; '
              'non-trivial: an external await returns or hangs for an event that has a child'),
     'C04': dict(
-        gens=[('core', dict(nb=(1, 3), proglen=(1, 6)), 0.5), ('core', dict(nb=(1, 2), proglen=(2, 6), p_timeout=0.5, nh=(2, 7)), 0.2),
-              ('chain', dict(), 0.3)],
+        gens=[('core', dict(nb=(1, 3), proglen=(1, 6)), 0.4), ('core', dict(nb=(1, 2), proglen=(2, 6), p_timeout=0.5, nh=(2, 7)), 0.15),
+              ('chain', dict(), 0.15), ('chain', dict(p_timeout=1.0, p_await=0.95, min_depth=3, nb=(1, 1), maxh=(50,)), 0.3)],
         facets=CORE + ['await', 'signal', 'lock', 'results', 'lineage', 'timeout'],
         rule='handlers that dispatch to any bus and await with sleeps/yields before and during the await, nesting <= 4; '
              'non-trivial: an in-handler await occurs'),
@@ -65,7 +65,8 @@ FAMILIES = {
         rule='parallel handlers dispatching at interleaved times, nested awaits, forwarding of roots and children, explicit parents, event_bus reads; '
              'non-trivial: a handler instance dispatches'),
     'C10': dict(
-        gens=[('core', dict(p_timeout=0.6, proglen=(1, 6)), 0.6), ('chain', dict(p_timeout=1.0), 0.4)],
+        gens=[('core', dict(p_timeout=0.6, proglen=(1, 6)), 0.5), ('chain', dict(p_timeout=1.0), 0.25),
+              ('chain', dict(p_timeout=1.0, p_await=0.95, min_depth=3, nb=(1, 1), maxh=(50,)), 0.25)],
         facets=CORE + ['timeout', 'results', 'signal', 'unfinished', 'lineage', 'await', 'lock'],
         rule='per-type timeouts (odd multiples of 1/128 s) against handler programs of sleeps (multiples of 1/64 s), nested awaits; serial buses; '
              'non-trivial: a handler is cancelled by a deadline'),
